@@ -239,7 +239,13 @@ fn classify_death(status: &std::process::ExitStatus, stderr: &str) -> (String, S
     (s, format!("process ended with {status:?}; stderr tail: {tail}"))
 }
 
-fn run_worker(bin: &str, base_args: &[String], worker_args: &[String], watchdog: Duration) -> WorkerResult {
+fn run_worker(
+    bin: &str,
+    base_args: &[String],
+    worker_args: &[String],
+    watchdog: Duration,
+    refine: &dyn Fn(&str, &str) -> String,
+) -> WorkerResult {
     let mut child = Command::new(bin)
         .args(base_args)
         .args(worker_args)
@@ -368,6 +374,7 @@ fn run_worker(bin: &str, base_args: &[String], worker_args: &[String], watchdog:
         } else {
             classify_death(&status, &stderr_text)
         };
+        let sig = refine(&js, &sig);
         res.died = Some((idx, js, sig, detail));
     }
     res
@@ -472,7 +479,13 @@ impl Ctx {
                                     open_json.clone(),
                                 ]
                             };
-                            let r = run_worker(&bin, &base, &wargs, Duration::from_secs(watchdog_s));
+                            let refine = |js: &str, sig: &str| -> String {
+                                match serde_json::from_str::<P::Case>(js) {
+                                    Ok(case) if sig.starts_with("crash:") => P::refine_crash(&case, sig),
+                                    _ => sig.to_string(),
+                                }
+                            };
+                            let r = run_worker(&bin, &base, &wargs, Duration::from_secs(watchdog_s), &refine);
                             let died = r.died.as_ref().map(|d| (d.0, d.2.clone()));
                             out.push(r);
                             match died {
@@ -565,7 +578,7 @@ fn shrink_in_children<P: Part>(bin: &str, property: &str, case_json: &str, sig: 
                 continue;
             }
             if let Some((s, _)) = run_one(bin, property, P::NAME, &js, Duration::from_secs(30)) {
-                if s == sig {
+                if refine_one::<P>(&js, &s) == sig {
                     best = js;
                     improved = true;
                     break;
@@ -577,6 +590,13 @@ fn shrink_in_children<P: Part>(bin: &str, property: &str, case_json: &str, sig: 
         }
     }
     best
+}
+
+fn refine_one<P: Part>(js: &str, sig: &str) -> String {
+    match serde_json::from_str::<P::Case>(js) {
+        Ok(case) if sig.starts_with("crash:") => P::refine_crash(&case, sig),
+        _ => sig.to_string(),
+    }
 }
 
 pub fn bin_for_label(label: &str) -> Option<String> {
@@ -604,7 +624,7 @@ impl Ctx {
             std::process::exit(2);
         };
         let js = serde_json::to_string(&rf.case).unwrap();
-        let res = run_one(&bin, self.property, P::NAME, &js, Duration::from_secs(120));
+        let res = run_one(&bin, self.property, P::NAME, &js, Duration::from_secs(120)).map(|(s, d)| (refine_one::<P>(&js, &s), d));
         self.add_counts(&rf.part, 1, [hash_str(&js), hash_str(&js).wrapping_add(1)], [], vec![rf.case.clone()], None);
         if let Some((sig, detail)) = res {
             if sig == "hang" {
@@ -627,7 +647,7 @@ impl Ctx {
         for f in self.findings_for_part(&want_part) {
             let Some(w) = f.witness.clone() else { continue };
             let js = serde_json::to_string(&w).unwrap();
-            let res = run_one(&bin, self.property, P::NAME, &js, Duration::from_secs(120));
+            let res = run_one(&bin, self.property, P::NAME, &js, Duration::from_secs(120)).map(|(s, d)| (refine_one::<P>(&js, &s), d));
             self.add_counts(&want_part, 1, [], [("finding_witnesses", 1)], vec![], None);
             let matches = |sig: &str| OpenSet(vec![f.signature.clone()]).contains(sig);
             match (f.status.as_str(), res) {
@@ -673,7 +693,7 @@ impl Ctx {
                 continue;
             }
             let js = serde_json::to_string(&rf.case).unwrap();
-            let res = run_one(&bin, self.property, P::NAME, &js, Duration::from_secs(120));
+            let res = run_one(&bin, self.property, P::NAME, &js, Duration::from_secs(120)).map(|(s, d)| (refine_one::<P>(&js, &s), d));
             self.add_counts(&want_part, 1, [hash_str(&js)], [("regression_replays", 1)], vec![], None);
             if let Some((sig, detail)) = res {
                 if sig == "hang" {
